@@ -237,10 +237,7 @@ func (srv *Session) handleCommand(ctx context.Context, conn net.Conn, t types.Cl
 		// https://github.com/postgres/postgres/blob/6e1dd2773eb60a6ab87b27b8d9391b756e904ac3/src/backend/tcop/postgres.c#L4295
 		return nil
 	case types.ClientClose:
-		// TODO: close the statement or portal
-		writer.Start(types.ServerCloseComplete) //nolint:errcheck
-		writer.End()                            //nolint:errcheck
-		return nil
+		return srv.handleClose(ctx, reader, writer)
 	case types.ClientTerminate:
 		err := srv.handleConnTerminate(ctx)
 		if err != nil {
@@ -585,6 +582,40 @@ func (srv *Session) handleExecute(ctx context.Context, reader *buffer.Reader, wr
 	}
 
 	return nil
+}
+
+// handleClose closes the prepared statement or portal with the given name. It
+// is not an error to close a name that does not exist.
+func (srv *Session) handleClose(ctx context.Context, reader *buffer.Reader, writer *buffer.Writer) error {
+	d, err := reader.GetBytes(1)
+	if err != nil {
+		return err
+	}
+
+	name, err := reader.GetString()
+	if err != nil {
+		return err
+	}
+
+	switch types.DescribeMessage(d[0]) {
+	case types.DescribeStatement:
+		if closer, ok := srv.Statements.(StatementCloser); ok {
+			err = closer.Close(ctx, name)
+		}
+	case types.DescribePortal:
+		if closer, ok := srv.Portals.(PortalCloser); ok {
+			err = closer.Close(ctx, name)
+		}
+	default:
+		err = fmt.Errorf("unknown close command: %q", d[0])
+	}
+
+	if err != nil {
+		return srv.extendedError(writer, err)
+	}
+
+	writer.Start(types.ServerCloseComplete)
+	return writer.End()
 }
 
 func (srv *Session) handleConnTerminate(ctx context.Context) error {
